@@ -303,3 +303,6 @@ PCV_OP(algalpha_all)
   }
   return out;
 }
+
+// algagree = algall, but the model does not evaluate pi(x): the judge only requires mutual agreement
+PCV_OP(algagree) { return op_algall(a); }
